@@ -40,7 +40,7 @@ PROPS = {
     'C07': dict(
         props_file='Props/C07.v',
         components=['c07'],
-        comp_names={7: 'nextConfiguration/checkConfiguration/hasVote/inConfiguration/quorumSize'},
+        comp_names={5: 'commitment tables and random sequences (non-voters never counted)', 7: 'nextConfiguration/checkConfiguration/hasVote/inConfiguration/quorumSize'},
         rule='every configuration of <=2 servers over ids {"",s1,s2,s3} x addresses {"",a1,a2} x 3 suffrages (incl. ill-formed) x 5 commands x id x address x '
              'prevIndex in {0,idx,idx+1} (quick: sampled 1/3); 3-server configurations over non-empty ids/addresses (sampled); random 1..5-server configurations. '
              'Compared: checkConfiguration, result configuration or error, hasVote/inConfiguration of 6 ids, quorumSize (real quorumSize on a booted node for a sample). '
@@ -74,7 +74,7 @@ PROPS = {
     'C01': dict(
         props_file='Props/C01.v',
         components=['c01'],
-        comp_names={1: 'election scripts on a real cluster vs the composed cluster model (every RequestVote held twice: request and answer released by the script)', 6: 'node sequence incl. candidates (TimeoutNow) and electSelf', 1001: 'cluster churn histories', 1002: 'election races with held requests/responses', 1003: 'stale grants template'},
+        comp_names={14: 'candidate loop: real main loop with scripted peers (configurations with non-voters)', 1: 'election scripts on a real cluster vs the composed cluster model (every RequestVote held twice: request and answer released by the script)', 6: 'node sequence incl. candidates (TimeoutNow) and electSelf', 1001: 'cluster churn histories', 1002: 'election races with held requests/responses', 1003: 'stale grants template'},
         rule='(0) composed-model tie: 2-5 real servers (all goroutines, 1h timers, pre-vote off) over a transport that holds every RequestVote call until the script delivers the request and, separately, the answer; adaptive scripts of timer firings, deliveries, lost answers, stray vote requests, restarts and injected AppendEntries; after each op role/term/vote record/last index of every server and the number of Leader transitions are diffed against Model/Cluster.v gstep; (i) node sequences over the C06 alphabet + TimeoutNow (candidate role) + follower-timeout decision, random failures/crash cuts, diffed against the model; '
              '(ii) real 3-5 server clusters (real goroutines, 1h timers, scripted network): election races with vote requests/responses held in flight and released in random order, '
              'the stale-grants template (A candidate for T with grants in flight, B wins T+1 with A\'s vote, then the grants arrive), and the general churn mix (partitions, crashes between durable writes, '
